@@ -9,7 +9,7 @@ Ip(dst, src, tag, vid, pcp, cfi, tos, proto, frag, ts, td, pl) ==
 NonIp(dst, src, tag, vid, pcp, et, pl) ==
   Mk(dst, src, tag, vid, pcp, 0, et, 0, "-", "-", "-", 0, 0, 0, pl)
 
-MCShape ==
+BaseShape ==
   [u_tcp      |-> Ip("ma", "mb", FALSE, 0, 0, 0, 0, "tcp", 0, 1000, 2000, "p8"),
    t_tcp      |-> Ip("ma", "mb", TRUE, 4095, 7, 0, 0, "tcp", 0, 1000, 2000, "p8"),
    u_udp      |-> Ip("ma", "mb", FALSE, 0, 0, 0, 0, "udp", 0, 1000, 2000, "p8"),
@@ -42,9 +42,6 @@ MCShape ==
    u_oth      |-> NonIp("ma", "mb", FALSE, 0, 0, "oth", "p7"),
    bpdu       |-> NonIp("stp", "mb", FALSE, 0, 0, "bpdu", "p0")]
 
-ASSUME \A s \in DOMAIN MCShape : FrameOK(MCShape[s])
-ASSUME PrintT(<<"S", ToJson(MCShape)>>)
-
 \* ---- the action alphabet -----------------------------------------------------
 Out(p)  == Act("output", p, 65535, "-")
 OutC(m) == Act("output", CONTROLLER, m, "-")
@@ -68,6 +65,108 @@ TOS == Act("set_nw_tos", 184, 0, "-")
 TOS0 == Act("set_nw_tos", 0, 0, "-")
 TPS == Act("set_tp_src", 65535, 0, "-")
 TPD == Act("set_tp_dst", 80, 0, "-")
+
+\* ---- frames on the special values of the Internet checksum (round 5) ----------
+\* The property demands valid checksums on EVERY frame.  The values on which
+\* implementations of the ones-complement sum differ are hit by about one frame
+\* in 65536, so they are SOLVED for here, with the operators Frames!Enc itself
+\* uses: one 16-bit word of the frame (a transport port, the ICMP echo identifier,
+\* the IPv4 identification) is chosen such that AFTER the rewrites rw the block
+\* the checksum covers
+\*   "zero"    sums to 0xffff: the computed checksum is 0 - UDP must transmit 0xffff
+\*             (RFC 768), TCP, ICMP and the IPv4 header transmit 0x0000;
+\*   "carry"   has a big-endian word sum that is exactly 0x10000 after ONE fold
+\*             (a second end-around carry is needed);
+\*   "carryle" the same for the sum taken over little-endian words (what an
+\*             implementation summing in host order on a little-endian machine folds).
+RECURSIVE ApplyAll(_, _)
+ApplyAll(R, f) == IF R = <<>> THEN f ELSE ApplyAll(Tail(R), Apply(Head(R), f))
+Fold1(x) == (x % 65536) + (x \div 65536)
+Swap(w) == (w % 256) * 256 + (w \div 256)
+SwapBytes(b) == LET e == IF Len(b) % 2 = 1 THEN b \o <<0>> ELSE b IN
+                [i \in 1..Len(e) |-> IF i % 2 = 1 THEN e[i + 1] ELSE e[i - 1]]
+\* the value of one word (zero in a block whose words sum to s0) that brings the block to ...
+ToZero(s0) == 65535 - Fold16(s0)                                  \* ... a folded sum of 0xffff
+\* (no LET name may be that of a VARIABLE of TraceDatapath - tid, l: TLC then takes every definition using
+\*  it for state-dependent and re-evaluates MCShape at each reference)
+ToCarry(s0) == LET hi16 == s0 \div 65536                           \* ... a once-folded sum of 0x10000
+                   lo16 == s0 % 65536 IN
+               IF hi16 + lo16 <= 65536 THEN 65536 - hi16 - lo16 ELSE 131071 - hi16 - lo16
+Block(site, f) == CASE site = "udp" -> UdpBlock(f) [] site = "tcp" -> TcpBlock(f)
+                    [] site = "icmp" -> IcmpBlock(f) [] OTHER -> IpBlock(f)
+\* the word that is solved for (one the rewrites do not overwrite)
+Steer(site, R) == CASE site = "ip" -> "ipid" [] site = "icmp" -> "eid"
+                    [] OTHER -> IF \E i \in DOMAIN R : R[i].t = "set_tp_src" THEN "tdst" ELSE "tsrc"
+Z(base, site, cls, rw) == [base |-> base, site |-> site, cls |-> cls, rw |-> rw]
+Solve(z) == LET fld == Steer(z.site, z.rw)
+                b   == Block(z.site, ApplyAll(z.rw, [z.base EXCEPT ![fld] = 0]))
+                v   == CASE z.cls = "zero"  -> ToZero(Sum16(b))
+                         [] z.cls = "carry" -> ToCarry(Sum16(b))
+                         [] OTHER           -> Swap(ToCarry(Sum16(SwapBytes(b)))) IN
+            [z.base EXCEPT ![fld] = v]
+\* the checksum field of that site in the BYTES of the frame
+CsumField(site, g) == LET b == Enc(g)
+                          o == 14 + (IF g.tag THEN 4 ELSE 0)
+                          k == CASE site = "ip" -> o + 11 [] site = "udp" -> o + IpHdrLen(g) + 7
+                                 [] site = "tcp" -> o + IpHdrLen(g) + 17 [] OTHER -> o + IpHdrLen(g) + 3 IN
+                      b[k] * 256 + b[k + 1]
+\* does frame f, after the rewrites of z, sit on the value z names (checked by TLC, below)
+Hits(z, f) == LET g == ApplyAll(z.rw, f)
+                  b == Block(z.site, g) IN
+              /\ FrameOK(g) /\ (z.site # "ip" => g.proto = z.site /\ g.frag = 0) /\ ~g.nocs
+              /\ CASE z.cls = "zero"  -> /\ Csum(b) = 0
+                                         /\ CsumField(z.site, g) = (IF z.site = "udp" THEN 65535 ELSE 0)
+                   [] z.cls = "carry" -> Fold1(Sum16(b)) = 65536
+                   [] OTHER           -> Fold1(Sum16(SwapBytes(b))) = 65536
+
+ZSpec ==
+  [\* UDP: computed checksum 0 -> 0xffff on the wire; as received / after each rewrite the checksum covers
+   zu      |-> Z(Ip("ma", "mb", FALSE, 0, 0, 0, 0, "udp", 0, 1000, 2000, "p8"), "udp", "zero", <<>>),
+   zu_tps  |-> Z(Ip("ma", "mb", TRUE, 100, 5, 0, 40, "udp", 0, 1000, 2000, "p8"), "udp", "zero", <<TPS>>),
+   zu_tpd  |-> Z(Ip("ma", "mb", FALSE, 0, 0, 0, 0, "udp", 0, 1000, 2000, "p9"), "udp", "zero", <<TPD>>),
+   zu_nsrc |-> Z(Ip("ma", "mb", FALSE, 0, 0, 0, 0, "udp", 0, 53, 2000, "p0"), "udp", "zero", <<NSRC>>),
+   zu_ndst |-> Z(WithOpts(Ip("ma", "mb", FALSE, 0, 0, 0, 0, "udp", 0, 1000, 2000, "p8"), "ra", "-"),
+                 "udp", "zero", <<NDST>>),
+   zu_2    |-> Z(Ip("ma", "mb", TRUE, 5, 3, 0, 0, "udp", 0, 3000, 4000, "p7"), "udp", "zero", <<TPS, NDST>>),
+   \* TCP: computed checksum 0 -> 0x0000 on the wire
+   zt      |-> Z(Ip("ma", "mb", FALSE, 0, 0, 0, 0, "tcp", 0, 1000, 2000, "p8"), "tcp", "zero", <<>>),
+   zt_tps  |-> Z(WithOpts(Ip("ma", "mb", FALSE, 0, 0, 0, 0, "tcp", 0, 1000, 2000, "p8"), "-", "mss"),
+                 "tcp", "zero", <<TPS>>),
+   zt_tpd  |-> Z(Ip("ma", "mb", TRUE, 4095, 7, 0, 0, "tcp", 0, 1000, 2000, "p8"), "tcp", "zero", <<TPD>>),
+   zt_nsrc |-> Z(Ip("ma", "mb", FALSE, 0, 0, 0, 0, "tcp", 0, 1000, 2000, "p7"), "tcp", "zero", <<NSRC>>),
+   zt_ndst |-> Z(Ip("ma", "mb", FALSE, 0, 0, 0, 0, "tcp", 0, 1000, 2000, "p0"), "tcp", "zero", <<NDST>>),
+   zt_2    |-> Z(Ip("ma", "mb", FALSE, 0, 0, 0, 0, "tcp", 0, 3000, 4000, "p9"), "tcp", "zero", <<NSRC, TPD>>),
+   \* ICMP (no rewrite reaches its checksum)
+   zi      |-> Z(Ip("ma", "mb", FALSE, 0, 0, 0, 0, "icmp", 0, 0, 0, "p8"), "icmp", "zero", <<>>),
+   zi_t    |-> Z(Ip("ma", "mb", TRUE, 1, 0, 0, 0, "icmp", 0, 0, 0, "p1"), "icmp", "zero", <<>>),
+   \* IPv4 header checksum: as received / after each rewrite it covers
+   zh      |-> Z(Ip("ma", "mb", FALSE, 0, 0, 0, 0, "x", 0, 0, 0, "p8"), "ip", "zero", <<>>),
+   zh_nsrc |-> Z(Ip("ma", "mb", FALSE, 0, 0, 0, 0, "udp", 0, 1000, 2000, "p8"), "ip", "zero", <<NSRC>>),
+   zh_ndst |-> Z(Ip("ma", "mb", TRUE, 100, 5, 0, 0, "tcp", 0, 1000, 2000, "p8"), "ip", "zero", <<NDST>>),
+   zh_tos  |-> Z(Ip("ma", "mb", FALSE, 0, 0, 0, 3, "icmp", 0, 0, 0, "p8"), "ip", "zero", <<TOS>>),
+   zh_frag |-> Z(WithOpts(Ip("ma", "mb", FALSE, 0, 0, 0, 40, "udp", 2, 0, 0, "p8"), "ra", "-"), "ip", "zero", <<TOS0>>),
+   \* sums that need the second end-around carry
+   fu_be   |-> Z(Ip("ma", "mb", FALSE, 0, 0, 0, 0, "udp", 0, 1000, 2000, "p200"), "udp", "carry", <<>>),
+   fu_le   |-> Z(Ip("ma", "mb", FALSE, 0, 0, 0, 0, "udp", 0, 1000, 2000, "p200"), "udp", "carryle", <<>>),
+   fu_le_n |-> Z(Ip("ma", "mb", FALSE, 0, 0, 0, 0, "udp", 0, 1000, 2000, "p9"), "udp", "carryle", <<NSRC>>),
+   ft_be   |-> Z(Ip("ma", "mb", FALSE, 0, 0, 0, 0, "tcp", 0, 1000, 2000, "p8"), "tcp", "carry", <<>>),
+   ft_le   |-> Z(Ip("ma", "mb", TRUE, 7, 0, 0, 0, "tcp", 0, 1000, 2000, "p7"), "tcp", "carryle", <<>>),
+   fi_le   |-> Z(Ip("ma", "mb", FALSE, 0, 0, 0, 0, "icmp", 0, 0, 0, "p9"), "icmp", "carryle", <<>>),
+   fh_be   |-> Z(Ip("ma", "mb", FALSE, 0, 0, 0, 0, "udp", 0, 1000, 2000, "p8"), "ip", "carry", <<>>),
+   fh_le   |-> Z([Ip("ma", "mb", FALSE, 0, 0, 0, 0, "tcp", 0, 1000, 2000, "p8") EXCEPT !.nsrc = "ic"], "ip", "carryle", <<>>),
+   fh_le_d |-> Z([Ip("ma", "mb", FALSE, 0, 0, 0, 0, "udp", 0, 1000, 2000, "p8") EXCEPT !.nsrc = "ic"], "ip", "carryle", <<NDST>>)]
+ZShape == [s \in DOMAIN ZSpec |-> Solve(ZSpec[s])]
+\* UDP datagrams sent without a checksum (field 0): see Frames!EncAlts for the latitude
+NShape ==
+  [nc_udp   |-> [Ip("ma", "mb", FALSE, 0, 0, 0, 0, "udp", 0, 1000, 2000, "p8") EXCEPT !.nocs = TRUE],
+   nc_udp_t |-> [WithOpts(Ip("ma", "mb", TRUE, 100, 5, 0, 40, "udp", 0, 1000, 2000, "p9"), "ra", "-") EXCEPT !.nocs = TRUE]]
+
+MCShape == BaseShape @@ ZShape @@ NShape
+ASSUME \A s \in DOMAIN MCShape : FrameOK(MCShape[s])
+ASSUME \A s \in DOMAIN ZSpec : Hits(ZSpec[s], ZShape[s]) \/ (PrintT(<<"MISS", s, ZShape[s]>>) /\ FALSE)
+ASSUME PrintT(<<"S", ToJson(MCShape)>>)
+ASSUME PrintT(<<"Z", ToJson([s \in DOMAIN ZSpec |-> [site |-> ZSpec[s].site, cls |-> ZSpec[s].cls,
+                                                     rw |-> [i \in DOMAIN ZSpec[s].rw |-> ZSpec[s].rw[i].t]]])>>)
 
 RewT == {VID7, VID0, VIDM, PCP5, PCP0, STRIP, SRC, DST, NSRC, NDST, TOS, TOS0, TPS, TPD}
 RewQ == {VID7, PCP5, STRIP, SRC, DST, NSRC, NDST, TOS, TPS, TPD}
@@ -96,7 +195,7 @@ AQ_FlowLists == UpTo2(RewQ \cup OutQ) \cup Sandwich({O2, O3}, RewQ) \cup Seen2(R
 AQ_RxShapes == {"u_tcp", "t_udp", "u_icmp", "u_arp", "u_udp_ecn", "u_tcp_odd", "t_cfi",
                 "u_udp_ipopt", "t_tcp_opts"}
 AT_FlowLists == UpTo2(RewT \cup OutT) \cup Sandwich({O2, O3, OC}, RewT) \cup Seen2(RewT)
-AT_RxShapes == DOMAIN MCShape \ {"u_big"}
+AT_RxShapes == DOMAIN BaseShape \ {"u_big"}
 
 \* ---- B: every action list of length <= 2 in a PACKET_OUT (no flow entry: TABLE misses)
 BQ_OutLists == TableLast(UpTo2(RewQ \cup OutQ \cup {OTAB}))
@@ -138,6 +237,14 @@ P_FlowLists == {<<OFL>>}
 P_OutLists == {<<OFL>>, <<OALL>>, <<O1>>}
 P_ModOps == [p \in {1} |-> BitOps({"NO_FLOOD", "NO_FWD", "PORT_DOWN"})]
 
+\* ---- Z: frames on the special checksum values x the rewrites the checksums cover
+ZRew == {NSRC, NDST, TPS, TPD, TOS, TOS0}
+Z_Lists == {<<O2>>, <<OC>>, <<TPS, NDST, O2>>, <<NSRC, TPD, O2>>}
+           \cup {<<r, O2>> : r \in RewT} \cup {<<O2, r, O3>> : r \in ZRew} \cup {<<r, OC>> : r \in ZRew}
+           \cup {<<VID7, r, O2>> : r \in ZRew} \cup {<<r, STRIP, O2>> : r \in ZRew}
+Z_OutLists == Z_Lists \cup {<<OTAB>>}
+Z_Shapes == DOMAIN ZShape \cup DOMAIN NShape
+
 \* ---- S: simulation (long behaviours); the flow lists come from the check
 \* (seeded random lists of length <= 6 over the whole alphabet, passed as JSON)
 EnvLists == LET x == JsonDeserialize(IOEnv.C12_LISTS) IN {x[i] : i \in DOMAIN x}
@@ -145,7 +252,8 @@ S_OutLists == {<<OFL>>, <<OTAB>>, <<VID7, O2, STRIP, O3>>, <<OC64, NSRC, TPD, OA
                <<TOS, PCP5, OC, O1>>}
 S_BufLists == {<<O3>>, <<NDST, OFL>>, <<OIN, STRIP, O2>>, <<>>}
 S_Shapes == {"u_tcp", "t_udp", "u_icmp", "t_arp", "u_oth", "bpdu", "u_big", "u_udp_ecn", "u_frag2",
-             "u_frag1", "t_cfi", "u_udp_odd", "u_udp_ipopt", "t_tcp_opts", "u_tcp_eolopt", "u_icmp_ipopt"}
+             "u_frag1", "t_cfi", "u_udp_odd", "u_udp_ipopt", "t_tcp_opts", "u_tcp_eolopt", "u_icmp_ipopt",
+             "zu", "zu_nsrc", "zt", "zt_tpd", "zi", "zh", "zh_tos", "fu_le", "fh_le", "nc_udp"}
 
-ASSUME NoTable(AT_FlowLists \cup T_FlowLists \cup C_FlowLists \cup D_FlowLists \cup F_FlowLists)
+ASSUME NoTable(Z_Lists \cup AT_FlowLists \cup T_FlowLists \cup C_FlowLists \cup D_FlowLists \cup F_FlowLists)
 =============================================================================
